@@ -75,6 +75,7 @@ def run(ck):
     ck.rule("C09.R3", "Layered ordering: inner first for notifications, outer first for vetoes", floor=16)
     ck.rule("C09.R4", "Dispatch::event delivers iff event_enabled", floor=1)
     ck.rule("C09.R0", "wrapper impls discovered", floor=18)
+    ck.rule("C09.R9", "a type that is both a Subscribe and a per-subscriber Filter implements the same hooks in both roles, through the same methods of its own", floor=20)
     ck.rule("C09.R8", "dispatcher registration is announced exactly once: who may call on_register_dispatch (std and no_std)", floor=2)
     ck.rule("C09.R7", "a None layer is transparent for the max-level hint, also after it was swapped in by a reload (as C08.R7)", floor=1)
     ck.rule("C09.R6", "reload::Subscriber takes its lock with a blocking read on every call and forwards under it (as C12.R3)", floor=20)
@@ -84,6 +85,7 @@ def run(ck):
 
     check_dispatch_event(ck, F)
     check_pick_interest(ck, F)
+    role_agreement(ck, F)
     # reload::Subscriber forwards only after taking its lock: a non-blocking try_read that gives up while a reload is in
     # progress silently drops the notification for the wrapped layer (C12.R3's per-call blocking lock rule, instantiated)
     from rules import C12
@@ -113,6 +115,59 @@ def run(ck):
 
 
 RIDS = {"R0": "C09.R0", "R1": "C09.R1", "R2": "C09.R2", "R3": "C09.R3"}
+
+
+FILTER_TWIN = {"register_callsite": "callsite_enabled"}     # Subscribe hook -> its name in the Filter trait
+
+
+def role_agreement(ck, F, rid="C09.R9", only=None):
+    """Sibling agreement between `impl Subscribe<C> for T` and `impl Filter<C> for T` (EnvFilter, Targets, LevelFilter,
+    FilterFn, DynFilterFn, reload::Subscriber): a hook that exists in both traits is overridden in both impls or in
+    neither -- the traits' defaults do nothing, so a hook implemented in one role only makes the type behave differently
+    as a global filter and as a per-subscriber filter -- and both overrides reach the same inherent methods of T."""
+    S, FI = "tracing_subscriber::subscribe::Subscribe", "tracing_subscriber::subscribe::Filter"
+    sub = {i["self_ty"]: i for i in F.impls_of(S)}
+    fil = {i["self_ty"]: i for i in F.impls_of(FI)}
+    ftrait = F.traits.get(FI)
+    if not ck.anchor(rid, "trait Filter", ftrait):
+        return
+    fnames = {m["name"] for m in ftrait["methods"]}
+
+    def own(b, ty):
+        base = ty.split("<")[0]
+        out = set()
+        for x in [b] + F.closures_of(b):
+            for bb, t in x.calls():
+                c = t["callee"]
+                p = c.get("resolved") or c.get("path") or ""
+                if p.startswith(base + "::") and not c.get("trait"):
+                    out.add(p.rsplit("::", 1)[1])
+                elif c.get("trait") in (S, FI):
+                    out.add("<inner>::" + FILTER_TWIN.get(c.get("method"), c.get("method") or "?"))
+        return out
+    for ty in sorted(set(sub) & set(fil)):
+        if only and not any(o in ty for o in only):
+            continue
+        sm, fm = sub[ty]["methods"], fil[ty]["methods"]
+        for m in sorted(fnames):
+            sname = next((k for k in sm if FILTER_TWIN.get(k, k) == m), None)
+            if sname is None and m not in fm:
+                continue
+            key = "%s: %s as a layer and as a per-subscriber filter" % (ty.rsplit("::", 1)[-1].split("<")[0], m)
+            if sname is None or m not in fm:
+                have = fm.get(m) or sm.get(sname)
+                b = F.body(have)
+                ck.bad(rid, key, where(b.raw["sp"]) if b else ty, "implemented only in the %s role; the other trait's default does nothing"
+                       % ("Filter" if sname is None else "Subscribe"), fn=have)
+                continue
+            a, b = F.body(sm[sname]), F.body(fm[m])
+            if not (ck.anchor(rid, sm[sname], a) and ck.anchor(rid, fm[m], b)):
+                continue
+            oa, ob = own(a, ty), own(b, ty)
+            if oa == ob:
+                ck.ok(rid, key, fn=b.path, detail=sorted(oa))
+            else:
+                ck.bad(rid, key, where(b.raw["sp"]), "Subscribe::%s goes through %s but Filter::%s through %s" % (sname, sorted(oa), m, sorted(ob)), fn=b.path)
 
 
 def wrapper_rules(ck, F, rids=None, traits=None, only=None):
